@@ -7,10 +7,11 @@ CONSTANTS
   MaxSubmit = 3
   MaxLeaseWon = 2
   MaxRemove = 1
-  MaxUpdate = 2
+  MaxUpdate = 1
   MaxFetchErr = 1
   MaxClose = 1
   MaxDropped = 1
+  MaxSwallow = 1
 VIEW view
 INVARIANTS TypeOK AtMostOneReply AnnounceOK QuiescentAllReplied QueueDiscipline
 CHECK_DEADLOCK FALSE
